@@ -60,6 +60,9 @@ def ob_last_slice_prune(run, oid):
 
 
 def check(run):
+    # "can afterwards serve every shred, slice root and proof of it": the lookup behind all getters
+    from . import C14
+    C14.ob_block_lookup(run, "O13.8")
     ob_slice_outcomes(run, "O13.7")
     D.ob_state_mutations(run, "O13.6", ['consensus::blockstore::slot_block_data::BlockData', 'consensus::blockstore::slot_block_data::SlotBlockData', 'consensus::blockstore::BlockstoreImpl'], 'completed / last_slice / commitment_cache / misbehaviour flags are once-only records: clearing them re-announces blocks or hides equivocation')
     ob_last_slice_prune(run, "O13.1b")
